@@ -141,7 +141,66 @@ func c03Units(tier string, seed int64) []Unit {
 			}
 		}})
 	}
+	// Make for two *different* types whose names coincide (function-local types), in one process
+	units = append(units, Unit{Name: "C03/Make-same-named-local-types", Run: func(c *Ctx) {
+		for round := 0; round < 3; round++ {
+			for s := uint64(1); s <= 40; s++ {
+				for _, f := range []func(tb *FakeTB, seed uint64) (string, string){makeLocalRecA, makeLocalRecB, makeLocalRecC} {
+					got, bad := f(tb, s)
+					c.R.Evals++
+					c.R.States++
+					c.R.Transitions++
+					c.Outcome(got, true)
+					if bad != "" {
+						c.Violate(Violation{Sig: "C03 Make-wrong-dynamic-type " + sigOf(trunc(bad, 60)), Detail: fmt.Sprintf("Make for a function-local type named rec (seed %d): %s", s, bad), Replay: map[string]any{"engine": "seed", "seed": s}})
+					}
+				}
+			}
+		}
+	}})
 	return units
+}
+
+func makeLocalRecA(tb *FakeTB, seed uint64) (string, string) {
+	type rec struct{ A int8 }
+	var out, bad string
+	res := rapid.VerifRunSeed(tb, seed, false, func(t *rapid.T) {
+		v := rapid.Make[[]rec]().Draw(t, "v")
+		out = fmt.Sprintf("A%v", v)
+	})
+	if res.Kind == rapid.VerifPanic || res.Kind == rapid.VerifFail {
+		bad = res.Msg
+	}
+	return out, bad
+}
+
+func makeLocalRecB(tb *FakeTB, seed uint64) (string, string) {
+	type rec struct {
+		B string
+		C bool
+	}
+	var out, bad string
+	res := rapid.VerifRunSeed(tb, seed, false, func(t *rapid.T) {
+		v := rapid.Make[map[uint8]rec]().Draw(t, "v")
+		out = fmt.Sprintf("B%d", len(v))
+	})
+	if res.Kind == rapid.VerifPanic || res.Kind == rapid.VerifFail {
+		bad = res.Msg
+	}
+	return out, bad
+}
+
+func makeLocalRecC(tb *FakeTB, seed uint64) (string, string) {
+	type rec uint16
+	var out, bad string
+	res := rapid.VerifRunSeed(tb, seed, false, func(t *rapid.T) {
+		v := rapid.Make[*rec]().Draw(t, "v")
+		out = fmt.Sprintf("C%v", v == nil)
+	})
+	if res.Kind == rapid.VerifPanic || res.Kind == rapid.VerifFail {
+		bad = res.Msg
+	}
+	return out, bad
 }
 
 func init() {
